@@ -391,7 +391,7 @@ func (w *World) EnumPaths(fn *ssa.Function, o EnumOpts) EnumResult {
 			w.phiEnv, w.memEnv = nf.phi, nf.mem
 			switch x := in.(type) {
 			case *ssa.Store:
-				if a, ok := x.Addr.(*ssa.Alloc); ok {
+				if a, ok := w.resolveAddr(x.Addr).(*ssa.Alloc); ok {
 					nf.mem[a] = w.Resolve(x.Val)
 				}
 				nf.effects = append(nf.effects, Effect{Kind: "store", Target: w.apAddr(x.Addr), Val: w.AP(x.Val), In: in})
